@@ -154,18 +154,43 @@ func cmdCheck(args []string) int {
 			fmt.Printf("INCONCLUSIVE property=%s harness=%s: %s\n", prop, h.Name, s)
 		}
 		// translator validation: the witness model of one completed path must run clean natively
-		if !*noReplay && h.Witness != nil && os.Getenv("SYMX_NO_WITNESS_REPLAY") == "" {
+		if !*noReplay && os.Getenv("SYMX_NO_WITNESS_REPLAY") == "" {
 			hs := findHarnessSpec(spec, h.Name)
-			wfile := filepath.Join(replayDir, fmt.Sprintf("%s-witness.json", h.Name))
-			writeJSON(wfile, map[string]interface{}{"property": prop, "harness": h.Name, "func": hs.Func, "pkg": hs.Pkg, "kind": "witness",
-				"model": h.Witness, "params": h.Params, "known": sortedKeys(loadKnown(prop))})
-			ok, detail := rb.validateWitness(hs, wfile)
-			nreplayed++
-			replays = append(replays, map[string]interface{}{"harness": h.Name, "label": "witness path replayed natively: all assumptions and assertions hold", "replay": map[string]interface{}{"ran": true, "agrees": ok, "detail": detail, "file": wfile}})
-			if !ok {
-				msg := fmt.Sprintf("harness %s: native run of the witness model disagrees with the symbolic run (%s)", h.Name, detail)
+			agree := 0
+			for wi, w := range h.Witnesses {
+				wfile := filepath.Join(replayDir, fmt.Sprintf("%s-witness-%d.json", h.Name, wi))
+				writeJSON(wfile, map[string]interface{}{"property": prop, "harness": h.Name, "func": hs.Func, "pkg": hs.Pkg, "kind": "witness",
+					"model": w.Model, "params": h.Params, "known": sortedKeys(loadKnown(prop))})
+				ok, detail := rb.validateWitness(hs, wfile, w.Covers)
+				nreplayed++
+				if ok {
+					agree++
+					if wi > 0 {
+						os.Remove(wfile)
+					}
+					continue
+				}
+				replays = append(replays, map[string]interface{}{"harness": h.Name, "label": "witness path replayed natively", "replay": map[string]interface{}{"ran": true, "agrees": false, "detail": detail, "file": wfile}})
+				msg := fmt.Sprintf("harness %s: native run of a witness model disagrees with the symbolic path (%s)", h.Name, detail)
 				extraInconcl = append(extraInconcl, msg)
 				fmt.Println("INCONCLUSIVE", msg)
+			}
+			if len(h.Witnesses) > 0 {
+				replays = append(replays, map[string]interface{}{"harness": h.Name, "label": "witness models of completed symbolic paths replayed natively: assumptions, assertions and reachability labels agree",
+					"replay": map[string]interface{}{"ran": true, "paths_replayed": len(h.Witnesses), "agree": agree}})
+			}
+		}
+		if hs := findHarnessSpec(spec, h.Name); len(h.Inconcl) == 0 {
+			have := map[string]bool{}
+			for _, c := range h.Covers {
+				have[c] = true
+			}
+			for _, c := range hs.ExpectCovers {
+				if !have[c] {
+					msg := fmt.Sprintf("harness %s: reachability witness %q was not reached by any path (vacuous for that case)", h.Name, c)
+					extraInconcl = append(extraInconcl, msg)
+					fmt.Println("INCONCLUSIVE", msg)
+				}
 			}
 		}
 		// vacuity guard: each harness must complete at least one path
@@ -265,6 +290,9 @@ func (rb *replayBuilder) binFor(pkg string) (string, string) {
 		}
 		for _, f := range verifrt.Failures() {
 			fmt.Printf("VERIF-REPLAY failed=%s\n", f)
+		}
+		for _, c := range verifrt.Covers() {
+			fmt.Printf("VERIF-REPLAY cover=%s\n", c)
 		}
 		fmt.Println("VERIF-REPLAY done")
 	}()
@@ -368,12 +396,33 @@ func (rb *replayBuilder) replayViolation(hs HarnessSpec, rfile string, v *Violat
 // validateWitness runs the harness natively on a witness model of a completed symbolic path: the
 // native run must satisfy every assumption and every assertion (agreement of the encoding with
 // the real build on that path).
-func (rb *replayBuilder) validateWitness(hs HarnessSpec, rfile string) (bool, string) {
+func (rb *replayBuilder) validateWitness(hs HarnessSpec, rfile string, covers []string) (bool, string) {
 	lines, errs := rb.run(hs, rfile)
 	if errs != "" {
 		return false, errs
 	}
 	ok := false
+	defer func() {}()
+	nat := map[string]bool{}
+	for _, l := range lines {
+		if strings.HasPrefix(l, "VERIF-REPLAY cover=") {
+			nat[strings.TrimPrefix(l, "VERIF-REPLAY cover=")] = true
+		}
+	}
+	sym := map[string]bool{}
+	for _, c := range covers {
+		sym[c] = true
+	}
+	for c := range nat {
+		if !sym[c] {
+			return false, "native run reached cover " + c + " that the symbolic path did not; " + strings.Join(lines, "; ")
+		}
+	}
+	for c := range sym {
+		if !nat[c] {
+			return false, "symbolic path reached cover " + c + " that the native run did not; " + strings.Join(lines, "; ")
+		}
+	}
 	for _, l := range lines {
 		if l == "VERIF-REPLAY done" {
 			ok = true
@@ -450,8 +499,8 @@ func writeEvidence(prop, tier string, seed int, rr *RunResult, spec *Spec, repla
 			for _, s := range h.Inconcl {
 				inconcl = append(inconcl, h.Name+": "+s)
 			}
-			if h.Witness != nil {
-				samples = append(samples, map[string]interface{}{"harness": h.Name, "kind": "witness model of one completed path (vacuity guard)", "inputs": h.Witness, "path_condition": h.PCSample})
+			if len(h.Witnesses) > 0 {
+				samples = append(samples, map[string]interface{}{"harness": h.Name, "kind": "witness model of one completed path (vacuity guard)", "inputs": h.Witnesses[0].Model, "path_condition": h.PCSample})
 			}
 			for _, v := range h.Violations {
 				samples = append(samples, map[string]interface{}{"harness": h.Name, "kind": "counterexample", "label": v.Label, "inputs": v.Model, "known_finding": v.Known})
@@ -462,7 +511,15 @@ func writeEvidence(prop, tier string, seed int, rr *RunResult, spec *Spec, repla
 				"violations": len(h.Violations), "inconclusive": h.Inconcl, "feasibility_unknown_both_sides_explored": h.FeasUnknown, "covers": h.Covers, "wall_s": h.WallS, "panic_ends": h.PanicEnds,
 			})
 		}
-		nrep = len(replays)
+		for _, r := range replays {
+			n := 1
+			if m, ok := r["replay"].(map[string]interface{}); ok {
+				if k, ok := m["paths_replayed"].(int); ok {
+					n = k
+				}
+			}
+			nrep += n
+		}
 	}
 	funcs = sortedKeys(fset)
 	intr = sortedKeys(iset)
